@@ -526,3 +526,101 @@ def _radau_nan_replay(failed, cex=()):
     from . import replay
     r = replay.radau_nan_replay()
     return dict(replayed=r[0], replay_src=r[1], replay_log="\n".join(cex[:4]) + "\n" + r[2])
+
+
+def c04_dop_controller_nan(method="DOP853"):
+    """DOPRI5 / DOP853: the controller statements before `if err <= 1.0`, the rejection arm and the `h = hnew` that follows,
+    sliced out of solve() and executed bit-precisely (z3 Float64): a NaN or +inf error norm is rejected and the next step is
+    finite, keeps its direction and is <= 0.95 |h|."""
+
+    def unit(tier="quick", seed=0):
+        from . import domains_fp as FP
+        t0 = time.time()
+        items = M.method_items(method)
+        q = TB.Q()
+        failed, cex, samples = [], [], []
+        n_q = 0
+        z = z3
+        for err_kind in ("nan", "inf"):
+            for accepted_before in (0, 5):
+                dom = FP.Bits()
+                it = Interp(dom, items, {})
+                solve = it.fns[f"{method}::solve"]
+                found = []
+                _find_stmt_list_with_if(solve[3], lambda c: c[0] == "bin" and c[1] == "<=" and c[2][0] == "path" and c[2][1] == ["err"], found)
+                if len(found) != 1:
+                    raise Unsupported(f"{method}: accept test `if err <= 1.0` not found exactly once ({len(found)})")
+                stmts, idx, ifn = found[0]
+                # the contiguous controller assignments right before the test
+                k = idx
+                while k > 0:
+                    st = stmts[k - 1]
+                    core = st[1] if st[0] == "expr" else st
+                    if core[0] == "assign" and core[2][0] == "path" and core[2][1][0] in ("fac", "fac11", "hnew", "quot"):
+                        k -= 1
+                    else:
+                        break
+                pre = stmts[k: idx]
+                if len(pre) < 2:
+                    raise Unsupported(f"{method}: controller statements before the accept test not found")
+                post = stmts[idx + 1: idx + 2]
+                env = Env()
+                h, err = dom.sym("h"), dom.sym("err")
+                lim = lambda v, lo, hi: z.And(z.fpGEQ(v, FP.fv(lo)), z.fpLEQ(v, FP.fv(hi)))
+                dom.add(z.And(z.Not(z.fpIsNaN(h)), z.Not(z.fpIsInf(h)), z.fpGEQ(z.fpAbs(h), FP.fv(1e-290)), z.fpLEQ(z.fpAbs(h), FP.fv(1e290))))
+                dom.add(z.fpIsNaN(err) if err_kind == "nan" else z.And(z.fpIsInf(err), z.fpGT(err, FP.fv(0.0))))
+                vals = {"h": h, "err": err, "reject": False, "last": True, "hnew": FP.fv(0.0), "fac": FP.fv(0.0), "fac11": FP.fv(0.0),
+                        "steps": RStruct("Steps", {"total": 6, "accepted": accepted_before, "rejected": 0})}
+                for nm, lo, hi in (("safety_factor", 0.5, 1.0), ("facold", 1e-4, 1e4), ("beta", 0.0, 0.1), ("expo1", 0.05, 0.34), ("facc1", 2.0, 1e3), ("facc2", 1e-3, 1.0)):
+                    v = dom.sym(nm)
+                    dom.add(lim(v, lo, hi))
+                    vals[nm] = v
+                for k_, v in vals.items():
+                    env.declare(k_, v)
+                for s_ in pre:
+                    it.stmt(s_, env)
+                cond = it.expr(ifn[1], env)
+                n_q += 1
+                r = dom.holds(z.Not(cond)) if not isinstance(cond, bool) else (not cond)
+                if r is not True:
+                    failed.append(f"{method}: a step whose error norm is {err_kind.upper()} passes the accept test `err <= 1.0`")
+                    continue
+                it.block(ifn[3], env) if ifn[3][0] == "block" else it.expr(ifn[3], env)
+                for s_ in post:
+                    core = s_[1] if s_[0] == "expr" else s_
+                    if core[0] == "assign" and core[2][0] == "path" and core[2][1] == ["h"]:
+                        it.stmt(s_, env)
+                h2 = env.get("h")
+                facts = {"the next step size is finite": z.And(z.Not(z.fpIsNaN(h2)), z.Not(z.fpIsInf(h2))),
+                         "the next step size is at most 0.95 |h|": z.fpLEQ(z.fpAbs(h2), z.fpMul(FP.RNE, FP.fv(0.95), z.fpAbs(h))),
+                         "the next step keeps its direction": z.Or(z.And(z.fpGT(h, FP.fv(0.0)), z.fpGT(h2, FP.fv(0.0))), z.And(z.fpLT(h, FP.fv(0.0)), z.fpLT(h2, FP.fv(0.0))))}
+                for desc, f in facts.items():
+                    n_q += 1
+                    tq = time.time()
+                    r = dom.holds(f)
+                    q.solver_s += time.time() - tq
+                    if r is False:
+                        m = dom.model
+                        msg = f"{method}: after a rejected step with a {err_kind.upper()} error norm: {desc} -- violated"
+                        if msg not in failed:
+                            failed.append(msg)
+                            cex.append(f"{msg}: h = {m.eval(h)}, next h = {m.eval(h2)}")
+                    elif r is None:
+                        q.unknown.append(f"{desc} ({err_kind})")
+                if len(samples) < 2:
+                    samples.append({"err": err_kind, "obligation": "rejected, next |h| <= 0.95|h|, finite, same direction"})
+        q.n = n_q
+        q.quantified = n_q
+        q.samples = samples
+        rep = dict(replayed=None, replay_src="", replay_log="")
+        if failed:
+            from . import replay
+            r = replay.radau_nan_replay(method)
+            rep = dict(replayed=r[0], replay_src=r[1], replay_log="\n".join(cex[:4]) + "\n" + r[2])
+        return _result(f"c04_controller_nan_{method.lower()}", q, t0, failed,
+                       {"functions": [f"{method}::solve: controller statements, rejection arm of `if err <= 1.0`, `h = hnew` (AST slice, bit-precise)"],
+                        "bounds": "err in {NaN, +inf}; h any finite binary64 with 1e-290 <= |h| <= 1e290; safety_factor in [0.5,1], facold in [1e-4,1e4], beta in [0,0.1], expo1 in [0.05,0.34], facc1 in [2,1e3], facc2 in [1e-3,1]; powf by contract"},
+                       **rep)
+
+    unit.__name__ = f"c04_controller_nan_{method.lower()}"
+    return unit
